@@ -25,14 +25,17 @@ def make_cases(progs_path, cases_path, inputs, extra=None, trace=False):
 
 
 FOCUSED_QUICK = [("MC_Programs_calls6", [None, {"t": "int", "v": 5}]),
+                 ("MC_Programs_conds5", [None, {"t": "int", "v": 5}]),
+                 ("MC_Programs_chains7", [{"t": "int", "v": 5}]),
                  ("MC_Programs_arith5", [None])]
 FOCUSED_THOROUGH = [("MC_Programs_calls8", [None, {"t": "int", "v": 5}]),
                     ("MC_Programs_conds6", [None, {"t": "int", "v": 5}, progs.INPUTS[3]]),
+                    ("MC_Programs_chains7", [None, {"t": "int", "v": 5}]),
                     ("MC_Programs_lists5", [None, progs.INPUTS[3], progs.INPUTS[4]]),
                     ("MC_Programs_arith5", [None, {"t": "int", "v": 5}])]
 
 
-def corpus(out, tier, seed, wd, trace=False, extra=None):
+def corpus(out, tier, seed, wd, trace=False, extra=None, light=False):
     """The shared program corpus: all ASTs up to 3 (quick) / 4 (thorough) nodes over the broad alphabet, deeper ASTs over
     focused alphabets (call structure, conditionals and loops, lists and keys, arithmetic chains), random larger ASTs.
     Returns (cases path, number of cases, number of programs, description)."""
@@ -56,7 +59,13 @@ def corpus(out, tier, seed, wd, trace=False, extra=None):
                         c.update(extra)
                     f.write(json.dumps(c, separators=(",", ":")) + "\n")
                     ncases += 1
-        if tier == "quick":
+        if tier == "quick" and light:       # traced runs are an order of magnitude larger: fewer inputs per program
+            add("MC_Programs_q3", [None, progs.INPUTS[3]])
+            add("MC_Programs_calls6", [progs.INPUTS[1]])
+            add("MC_Programs_conds5", [None])
+            add("MC_Programs_chains7", [progs.INPUTS[1]])
+            add("MC_Programs_sim", [progs.INPUTS[3]], simulate=150, depth=14, seed=seed, min_nodes=5, cap=500)
+        elif tier == "quick":
             add("MC_Programs_q3", progs.INPUTS)
             for cfg, inputs in FOCUSED_QUICK:
                 add(cfg, inputs)
